@@ -680,7 +680,9 @@ func (g *Gen) applyContract(spec *FuncSpec, c *ssa.CallCommon, st *State) []Val 
 	preOK := g.defineRaw("pre", "Bool", sAnd(preAll...))
 	// havoc assigns
 	if !spec.HasAssigns {
-		if !spec.Pure {
+		// a `frame nothing` call rule of the caller (an ASSUMPTION noted in the evidence) also covers callees
+		// that have a contract without an assigns clause
+		if !spec.Pure && !g.frameNothing {
 			g.havocForCallG(c, st, true)
 		}
 	} else {
